@@ -348,6 +348,50 @@ theorem C06_witness_formatter (H : Bytes → Bytes) :
   refine ⟨rfl, ?_⟩
   simp [SameFieldMeta, shTask, SameFieldMeta.funcBytesOf, fmtFn, funcBytes]
 
+/-! ### documentation: an object serializer that drops callable-valued attributes -/
+
+/-- is the value something Python calls `callable` (function, class / type, functools.partial, bound method)? -/
+def isCallableVal : PyVal → Bool
+  | .func .. => true
+  | .ty _ => true
+  | .tyFields .. => true
+  | .seq _ .partialFn _ => true
+  | .seq _ .boundMethod _ => true
+  | _ => false
+
+/-- VARIANT of the `__dict__` branch of the generic fallback (`callable(value)` instead of `inspect.ismethod(value)` in
+    `is_special_or_method`): every instance attribute whose VALUE is callable is left out.  The live model
+    (`keptFields .dict`) keeps every entry that is neither a dunder name nor a bound method. -/
+def keptFieldsDropCallable (raw : List (Bytes × Bool × PyVal)) : List (Scalar × PyVal) :=
+  (raw.filter (fun f => keepField .dict f.1 f.2.1 && !isCallableVal f.2.2)).map (fun f => (Scalar.str f.1, f.2.2))
+
+/-- `double` / `square`: two functions with source whose serialised bodies differ (one chunk each, abbreviated) -/
+def fnDouble : PyVal := .func 5 (.ast [[100]]) [] [] []
+def fnSquare : PyVal := .func 5 (.ast [[115]]) [] [] []
+/-- `Transform(fn=…)`: a plain instance whose `__dict__` is `{'fn': <function>}` -/
+def transformRaw (fn : PyVal) : List (Bytes × Bool × PyVal) := [([102, 110], true, fn)]
+def transformLive (fn : PyVal) : PyVal := .obj 1 [109, 46, 84] (keptFields .dict (transformRaw fn))
+def transformVariant (fn : PyVal) : PyVal := .obj 1 [109, 46, 84] (keptFieldsDropCallable (transformRaw fn))
+
+/-- DOCUMENTATION WITNESS: under the variant `Transform(fn=double)` and `Transform(fn=square)` are serialised as the same
+    (empty) object and hence get the same hash — and as task inputs the same checksum — for EVERY digest function, while the
+    live model keeps the attribute: the two objects are different values of the grammar `G₀` (so by `C08_discriminates` their
+    hashes differ unless `H` collides). -/
+theorem C06_witness_callable_attr_dropped (H : Bytes → Bytes) :
+    hashAlone H (transformVariant fnDouble) = hashAlone H (transformVariant fnSquare)
+    ∧ ¬ Equiv (transformLive fnDouble) (transformLive fnSquare)
+    ∧ inG0 (transformLive fnDouble) = true ∧ inG0 (transformLive fnSquare) = true := by
+  refine ⟨rfl, ?_, by decide, by decide⟩
+  have e1 : transformLive fnDouble = .obj 1 [109, 46, 84] [(.str [102, 110], fnDouble)] := rfl
+  have e2 : transformLive fnSquare = .obj 1 [109, 46, 84] [(.str [102, 110], fnSquare)] := rfl
+  rw [e1, e2]
+  simp only [Equiv]
+  rintro ⟨_, ys', hperm, he⟩
+  have hys : ys' = [(.str [102, 110], fnSquare)] := List.perm_singleton.mp hperm
+  subst hys
+  simp only [EquivItems, Equiv, fnDouble, fnSquare, funcBytes] at he
+  exact absurd he.2.1.2.1 (by decide)
+
 /-! ### regression (D5 repaired): shape and dtype of a numpy array are part of the hash -/
 
 /-- `zeros((2,3))`, `zeros((3,2))`, `zeros(6)` and int64 / float64 zeros are pairwise NOT `≃`, so by
